@@ -21,6 +21,14 @@ O2  lookup precedence, bounded-exhaustive.  For the names n, now, today: every s
     nil, false, 0, '', [] and {}: a binding to a falsy-looking value is still a binding,
     so the lookup must stop there; extra sites (== nil, == false, == empty, | json) and
     a StrictUndefined environment tell nil apart from "undefined".
+O2c the same oracle on the 2nd and 3rd get_template() of one name through front-matter
+    style loaders built on CachingDictLoader, CachingFileSystemLoader (real files in a
+    temp dir, async under a private event loop) and CachingChoiceLoader, sync and async,
+    the later loads passing the same, different or no globals=, in the root template and
+    with include/render/extends of a cached matter-carrying partial that another caller
+    loaded first (and loads directly again afterwards).  Which caller's template globals
+    a shared cached template shows is not judged (C14); the rank of matter, environment
+    globals, render arguments, locals, blocks, built-ins and counters is.
 """
 
 from __future__ import annotations
@@ -53,7 +61,10 @@ RULE = (
     "container reachable from caller data was handed to a filter or tag at render time.  "
     "O2 cases = (name, layer subset, lookup context, construction variant, api, mode, "
     "value profile: distinct strings | resolving layer(s) bound to nil/false/0/''/[]/{}); "
-    "non-trivial = >= 2 layers define the name, or a layer binds a falsy-looking value."
+    "non-trivial = >= 2 layers define the name, or a layer binds a falsy-looking value.  "
+    "O2c cases = (name, layer subset, caching matter loader, sync/async load, globals "
+    "passed by the later loads, context); each performs three get_template calls of the "
+    "same name (two cache hits) with two renders after each."
 )
 ASSUMPTIONS = [
     "caller data is JSON-like (None/bool/int/float/str/list/dict/tuple); user-defined "
@@ -1457,6 +1468,312 @@ def _run_o2(spec: dict[str, Any], ctx: Ctx) -> None:
 
 
 # ---------------------------------------------------------------------------------------
+# O2c: lookup precedence on the 2nd / 3rd get_template() through caching matter loaders
+# ---------------------------------------------------------------------------------------
+
+CACHED_LOADERS = ("cdict", "cfs", "cchoice")
+CACHED_APIS = ("get_template", "get_template_async")
+CACHED_PATTERNS = ("same", "different", "none")  # globals= passed by the later loads
+CACHED_CONTEXTS = [("root", "with-0"), ("include", "plain"), ("render", "with"),
+                   ("extends", "with-0")]
+POPEN, PCLOSE = "‹", "›"
+PARTIAL_PROBE = f"{POPEN}pm:{{{{ c10other }}}}{PCLOSE}"
+
+
+class O2Cached:
+    """Front-matter style loaders built on the caching loaders, as in
+    docs/loading_templates.md: get_source returns TemplateSource(..., matter=...)."""
+
+    def __init__(self, ctx: Ctx):
+        import asyncio
+        import tempfile
+
+        from liquid2 import CachingChoiceLoader
+        from liquid2 import CachingDictLoader
+        from liquid2 import CachingFileSystemLoader
+        from liquid2 import Environment
+        from liquid2.loader import TemplateSource
+
+        self.ctx = ctx
+        self.Environment = Environment
+        self.tmp = tempfile.mkdtemp(prefix="vf-c10-")
+        self.loop = asyncio.new_event_loop()
+        self._envs: dict[Any, Any] = {}
+        self.view: list[str] = []
+        inner_cls = _make_loader_class()
+
+        class MatterCachingDictLoader(CachingDictLoader):
+            def __init__(self, templates: dict[str, str], matter: dict[str, Any]):
+                super().__init__(templates)
+                self.matter = matter
+
+            def get_source(self, env, template_name, *, context=None, **kwargs):  # noqa: ANN001, ANN003, ANN202
+                source, name, uptodate, _ = super().get_source(
+                    env, template_name, context=context, **kwargs
+                )
+                return TemplateSource(source, name, uptodate, self.matter.get(template_name))
+
+        class MatterCachingFileSystemLoader(CachingFileSystemLoader):
+            def __init__(self, search_path: str, matter: dict[str, Any]):
+                super().__init__(search_path)
+                self.matter = matter
+
+            def get_source(self, env, template_name, *, context=None, **kwargs):  # noqa: ANN001, ANN003, ANN202
+                source, name, uptodate, _ = super().get_source(
+                    env, template_name, context=context, **kwargs
+                )
+                return TemplateSource(source, name, uptodate, self.matter.get(template_name))
+
+            async def get_source_async(self, env, template_name, *, context=None, **kwargs):  # noqa: ANN001, ANN003, ANN202
+                source, name, uptodate, _ = await super().get_source_async(
+                    env, template_name, context=context, **kwargs
+                )
+                return TemplateSource(source, name, uptodate, self.matter.get(template_name))
+
+        def make(kind: str, templates: dict[str, str], matter: dict[str, Any]):  # noqa: ANN202
+            if kind == "cdict":
+                return MatterCachingDictLoader(templates, matter)
+            if kind == "cchoice":
+                return CachingChoiceLoader([inner_cls({}, {}), inner_cls(templates, matter)])
+            for fn in os.listdir(self.tmp):
+                os.unlink(os.path.join(self.tmp, fn))
+            for tname, src in templates.items():
+                with open(os.path.join(self.tmp, tname), "w", encoding="utf-8") as f:
+                    f.write(src)
+            return MatterCachingFileSystemLoader(self.tmp, matter)
+
+        self.make_loader = make
+
+    def close(self) -> None:
+        import shutil
+
+        try:
+            self.loop.run_until_complete(self.loop.shutdown_default_executor())
+            self.loop.close()
+        finally:
+            shutil.rmtree(self.tmp, ignore_errors=True)
+
+    def run(self, kind: str, coro):  # noqa: ANN001, ANN201
+        # the file-system loader's async path needs a running loop (run_in_executor)
+        return self.loop.run_until_complete(coro) if kind == "cfs" else drive(coro)
+
+    def env(self, name: str, with_e: bool):  # noqa: ANN201
+        k = (name, with_e)
+        e = self._envs.get(k)
+        if e is None:
+            e = self.Environment(globals={name: "vE"} if with_e else None)
+            self._envs[k] = e
+        return e
+
+    def execute(self, case: dict[str, Any], record: bool = True) -> list[str]:
+        ctx = self.ctx
+        name, base = case["name"], case["mask"] & ~BIT["render-arg"]
+        context, variant = case["context"], case["variant"]
+        kind, api, pattern = case["loader"], case["api"], case["pattern"]
+        only = case.get("only")
+        is_async = api == "get_template_async"
+        tpls = build(name, base, context, variant, only)
+        partial = {"include": "p", "render": "p", "extends": "base"}.get(context)
+        matter: dict[str, Any] = {}
+        if base & BIT["matter"]:
+            matter["root"] = {name: "vM"}
+        if partial:
+            tpls[partial] += PARTIAL_PROBE
+            matter[partial] = {"c10other": "pm"}
+        tg_first = {name: "vT"} if base & BIT["template-global"] else None
+        # a second caller's value for the template-global layer; "xO" is one of the values
+        # the if-chain / case probes can show and is not used as a decoy in these contexts
+        tg_other = {name: "xO"}
+        other_caller = {"c10g": 1}
+        before = copy.deepcopy((matter, tg_first, tg_other, other_caller))
+        env = self.env(name, bool(base & BIT["env-global"]))
+        env.loader = self.make_loader(kind, tpls, matter)
+        keys: list[str] = []
+        nsites = 0
+        self.view = []
+        suffix = (" on cached reload" if context == "root"
+                  else f" in {context}-{variant} on cached reload")
+
+        def viol(key: str, what: str, extra: dict[str, Any]) -> None:
+            keys.append(key)
+            if record:
+                ctx.violation(key, what, dict(
+                    {"o": "O2c", "name": name, "mask": base, "context": context,
+                     "variant": variant, "loader": kind, "api": api, "pattern": pattern,
+                     "only": only, "layers_present_at_first_load": sorted(_layers(base)),
+                     "templates": tpls, "matter": matter}, **extra))
+
+        def load(tname: str, g: dict[str, Any] | None):  # noqa: ANN202
+            kw = {} if g is None else {"globals": g}
+            if is_async:
+                return self.run(kind, env.get_template_async(tname, **kw))
+            return env.get_template(tname, **kw)
+
+        def render(t: Any, args: dict[str, Any], style: str) -> str:
+            if is_async:
+                return self.run(kind, t.render_async(**args) if style == "kwargs" else t.render_async(args))
+            return t.render(**args) if style == "kwargs" else t.render(args)
+
+        def probe_partial(when: str, g: dict[str, Any] | None) -> None:
+            # the partial carries matter of its own; loaded directly by another caller
+            # it must see that matter, before and after other templates pulled it in
+            try:
+                out = render(load(partial, g), {}, "kwargs")
+            except Exception as e:  # noqa: BLE001
+                viol(f"precedence:error:{type(e).__name__}{suffix}",
+                     f"loading/rendering the partial directly ({when}) raised {e!r}"[:300], {})
+                return
+            got = re.findall(f"{POPEN}pm:(.*?){PCLOSE}", out, re.S)
+            self.view.append(f"partial {partial!r} loaded directly {when}: c10other printed {got}")
+            if record:
+                ctx.count("cached_partial_probes")
+            if got != ["pm"]:
+                viol(f"precedence:matter shadowed-by undefined in partial-loaded-directly{suffix}",
+                     f"{partial!r} has matter {{'c10other': 'pm'}}; loaded directly {when} "
+                     f"{{{{ c10other }}}} printed {got}", {"when": when})
+
+        if partial:
+            probe_partial("before any other template used it", other_caller)
+        prev = None
+        for k in (1, 2, 3):
+            if k == 1 or pattern == "same":
+                g = tg_first
+            elif pattern == "different":
+                g = tg_other
+            else:
+                g = None
+            try:
+                t = load("root", g)
+            except Exception as e:  # noqa: BLE001
+                viol(f"precedence:error:{type(e).__name__}{suffix}",
+                     f"get_template #{k} raised {e!r}"[:300], {"load": k})
+                break
+            if record and k > 1:
+                ctx.count("cached_reloads")
+                if t is prev:
+                    ctx.count("cache_hits")
+            prev = t
+            # the template-global layer as the latest caller passed it, and as the first
+            # caller passed it (which of the two a shared cached template shows is C14's
+            # question; here only the rank of the other layers is judged)
+            t_latest = {"template-global": g[name]} if g else {}
+            t_first = {"template-global": "vT"} if tg_first else {}
+            for with_r in (True, False):
+                args = {name: "vR"} if with_r else {}
+                others = (_layers(base) - {"template-global", "render-arg"}) | (
+                    {"render-arg"} if with_r else set())
+                try:
+                    out = render(t, args, "kwargs" if (k + with_r) % 2 else "dict")
+                except Exception as e:  # noqa: BLE001
+                    viol(f"precedence:error:{type(e).__name__}{suffix}",
+                         f"render after get_template #{k} raised {e!r}"[:300], {"load": k})
+                    continue
+                if record:
+                    ctx.ev()
+                found = re.findall(f"{OPEN}(\\w+):(.*?){CLOSE}", out, re.S)
+                if len(found) != (1 if only else NSITES):
+                    viol(f"precedence:sites-missing{suffix}",
+                         f"expected {NSITES} lookup sites, found {len(found)}: {out[:200]!r}",
+                         {"load": k})
+                    continue
+                accept = []
+                for tl in (t_latest, t_first):
+                    exp = expected_layer(name, others | set(tl))
+                    accept.append((exp, tl.get("template-global", "vT")))
+                for skind, text in found:
+                    nsites += 1
+                    good = False
+                    wants = []
+                    for ai, (exp, tval) in enumerate(accept):
+                        want = expected_text(skind, exp)
+                        if want is not None and exp == "template-global":
+                            want = want.replace("vT", tval)
+                        wants.append(want)
+                        if want is None:
+                            ok = bool((RE_NOW if name == "now" else RE_TODAY).match(text))
+                        else:
+                            ok = text == want
+                        if ok:
+                            good = True
+                            if ai == 1 and wants[0] != want and record:
+                                ctx.count("cached_first_callers_globals_shown(diagnostic)")
+                            break
+                    self.view.append(
+                        f"get_template #{k} (globals={g}) render(R={with_r}) site={skind}: "
+                        f"printed {text!r}, accepted {wants}")
+                    if good:
+                        continue
+                    exp = accept[0][0]
+                    actual = "template-global" if text == "xO" else classify(skind, text, name)
+                    viol(
+                        f"precedence:{exp or 'undefined'} shadowed-by {actual}{suffix}",
+                        f"{{{{ {name} }}}} at site '{skind}' after get_template #{k} of 'root' "
+                        f"through a caching {kind} matter loader ({api}, later loads pass "
+                        f"{pattern} globals) with layers {sorted(others | set(t_latest))} printed "
+                        f"{text!r} (layer {actual}); documented order gives layer {exp} "
+                        f"({wants[0] if wants[0] is not None else 'a date'!r})",
+                        {"load": k, "with_render_arg": with_r, "site": skind, "printed": text,
+                         "expected_layer": exp},
+                    )
+        if partial:
+            probe_partial("after other templates included/rendered/extended it", None)
+        if (matter, tg_first, tg_other, other_caller) != before:
+            viol("mutation:caching-loader:deep-diff:caller-globals-or-matter",
+                 f"caller data changed: {before!r} -> {(matter, tg_first, tg_other, other_caller)!r}"[:300], {})
+        if record and keys and not only:
+            for key in dict.fromkeys(keys):
+                v = ctx.violations.get(key)
+                if v is None or any(w.get("only") for w in v["witnesses"]):
+                    continue
+                site = v["witnesses"][0].get("site")
+                if site and key in self.execute(dict(case, only=site), record=False):
+                    small = dict(v["witnesses"][0], only=site,
+                                 templates=dict(build(name, base, context, variant, site)))
+                    v["witnesses"].insert(0, small)
+                    del v["witnesses"][3:]
+        if record:
+            ctx.count("site_checks", nsites)
+            ctx.count("cached_site_checks", nsites)
+            ctx.nt("cached", name, base, context, variant, kind, api, pattern)
+        return keys
+
+
+def _cached_cases(name: str, base: int, tier: str) -> Iterator[dict[str, Any]]:
+    for li, kind in enumerate(CACHED_LOADERS):
+        for ai, api in enumerate(CACHED_APIS):
+            for pi, pattern in enumerate(CACHED_PATTERNS):
+                if tier == "quick":
+                    cvs = [CACHED_CONTEXTS[(base + li + ai * 2 + pi) % len(CACHED_CONTEXTS)]]
+                else:
+                    cvs = CACHED_CONTEXTS
+                for context, variant in cvs:
+                    yield {"name": name, "mask": base, "context": context, "variant": variant,
+                           "loader": kind, "api": api, "pattern": pattern}
+
+
+def _run_o2c(spec: dict[str, Any], ctx: Ctx) -> None:
+    name = spec["name"]
+    o = O2Cached(ctx)
+    last = None
+    try:
+        bases = [b for b in range(128) if not b & BIT["render-arg"]]
+        for bi, base in enumerate(bases):
+            if bi % spec["n"] != spec["i"]:
+                continue
+            for case in _cached_cases(name, base, spec["tier"]):
+                o.execute(case)
+                ctx.seen("cached_loaders", case["loader"] + ":" + case["api"])
+                ctx.seen("cached_contexts", case["context"] + ":" + case["pattern"])
+                last = case
+            for m in (base, base | BIT["render-arg"]):
+                ctx.seen("layer_subsets_cached", f"{name}:{m:07b}")
+    finally:
+        o.close()
+    if last:
+        ctx.sample({"kind": "cached", "case": last})
+
+
+# ---------------------------------------------------------------------------------------
 # framework interface
 # ---------------------------------------------------------------------------------------
 
@@ -1476,6 +1793,10 @@ def shards(tier: str, seed: int) -> list[dict[str, Any]]:  # noqa: ARG001
         for context, n in (("root", 4), ("include", 2), ("render", 2), ("macro", 1), ("extends", 1)):
             for i in range(n):
                 specs.append({"kind": "layers", "name": name, "context": context, "i": i, "n": n})
+    ncached = 2 if tier == "quick" else 6
+    for name in NAMES:
+        for i in range(ncached):
+            specs.append({"kind": "cached", "name": name, "i": i, "n": ncached})
     return specs
 
 
@@ -1503,6 +1824,14 @@ def floors(tier: str) -> dict[str, int]:
         "set:layer_subsets_edict": NIL_APPLICABLE,
         "set:falsy_profiles": len(falsy_profiles(tier)),
         "falsy_site_checks": 400_000,
+        # every subset again on the 2nd and 3rd get_template() through caching matter loaders
+        "set:layer_subsets_cached": len(NAMES) * 128,
+        "set:cached_loaders": len(CACHED_LOADERS) * len(CACHED_APIS),
+        "set:cached_contexts": len(CACHED_CONTEXTS) * len(CACHED_PATTERNS),
+        "cached_reloads": 6000,
+        "cache_hits": 6000,
+        "cached_site_checks": 200_000,
+        "cached_partial_probes": 3000,
     }
 
 
@@ -1511,6 +1840,7 @@ def exhaustive(tier: str, merged: dict[str, Any]) -> bool:  # noqa: ARG001
     return (
         len(sets.get("layer_subsets", ())) == len(NAMES) * 128
         and all(len(sets.get(f"layer_subsets_{fk}", ())) == NIL_APPLICABLE for fk in FALSY)
+        and len(sets.get("layer_subsets_cached", ())) == len(NAMES) * 128
         and not merged["failed"]
     )
 
@@ -1520,11 +1850,28 @@ def run_shard(spec: dict[str, Any], ctx: Ctx) -> None:
         _selftest(ctx)
     elif spec["kind"] == "layers":
         _run_o2(spec, ctx)
+    elif spec["kind"] == "cached":
+        _run_o2c(spec, ctx)
     else:
         _run_o1(spec, ctx)
 
 
 def replay(wit: dict[str, Any], ctx: Ctx) -> None:
+    if wit.get("o") == "O2c":
+        o = O2Cached(ctx)
+        try:
+            keys = o.execute(wit)
+        finally:
+            o.close()
+        print(f"replay C10/O2c: name={wit['name']} layers={sorted(_layers(wit['mask']))} "
+              f"context={wit['context']}-{wit['variant']} loader={wit['loader']} "
+              f"api={wit['api']} later-globals={wit['pattern']}")
+        for line in o.view:
+            print("  " + line)
+        for v in ctx.violations.values():
+            print(f"  {v['key']}: {v['what']}")
+        print(f"  keys={keys}")
+        return
     if wit.get("o") == "O2":
         o2 = O2(ctx)
         keys = o2.execute(wit)
